@@ -105,7 +105,7 @@ func (s *scanner) Length() uint {
 		if lex.Type() == lexeme.EndTop {
 			// Found character after the end of the schema and spaces. Ex: char
 			// "s" in "{} some text".
-			length = uint(lex.End()) - 1
+			length = uint(lex.End())
 			break
 		}
 		length = uint(lex.End()) + 1
